@@ -504,6 +504,13 @@ func (m *Monitor) passOracles(op Op, s Sample) {
 			m.add("C13", "handler-twice", fmt.Sprintf("OnUpdate of n%d ran %d times in one pass", n, c))
 		}
 	}
+	for n := range updCount {
+		// a handler of a node with a function of its own runs only when that function ran in this
+		// pass (vars, binds and always nodes change without an invocation event of their own)
+		if ref := e.Nodes[n]; ref != nil && !changed[n] && (ref.Kind == "Map" || ref.Kind == "Map2" || ref.Kind == "MapN" || ref.Kind == "Cutoff") {
+			m.add("C13", "handler-without-change", fmt.Sprintf("OnUpdate of n%d ran in a pass in which n%d was not recomputed to a new value", n, n))
+		}
+	}
 	for o, c := range obsCount {
 		if c > 1 {
 			m.add("C13", "observer-handler-twice", fmt.Sprintf("observer o%d OnUpdate ran %d times in one pass", o, c))
